@@ -255,6 +255,34 @@ func c20Frames(c *core.Collector, x *Ctx) {
 	})
 	_ = special
 	c.Count("version_phone_pairs", int64(len(jobs)))
+	// ONE option value applied to several terminals (a fleet configured from one template): each terminal numbers its own frames
+	for vi, ver := range c20Versions {
+		opt := terminal.WithHeader(ver, fmt.Sprintf("1380000%04d", 7000+vi))
+		var fleet []*terminal.Terminal
+		for k := 0; k < 3; k++ {
+			fleet = append(fleet, terminal.New(opt))
+		}
+		prev := []int{-1, -1, -1}
+		for step := 0; step < 60; step++ {
+			k := step % 3
+			if step%7 == 6 {
+				k = (step / 7) % 3
+			}
+			cmd := c20Cmds[step%len(c20Cmds)]
+			f := fleet[k].CreateDefaultCommandData(cmd)
+			c.Eval()
+			rf, ok := ref.Validate(f)
+			if f == nil || !ok {
+				continue
+			}
+			if prev[k] >= 0 && int(rf.Serial) != (prev[k]+1)%65536 {
+				c.Violate("frame|terminals built from one option value do not number their frames independently", fmt.Sprintf("v%d terminal %d: previous %d, now %d", ver, k, prev[k], rf.Serial), map[string]any{"version": int(ver), "terminal": k})
+				break
+			}
+			prev[k] = int(rf.Serial)
+		}
+		c.Count("fleet_terminals_from_one_option", 3)
+	}
 	// custom bodies + serial wrap
 	for vi, ver := range c20Versions {
 		r := core.NewRand(c.Seed, "c20w", uint64(vi))
